@@ -30,6 +30,7 @@ EXHAUSTIVE_ALL = False
 DATA_CARRIERS = ["list-none", "tuple-none", "list-nan", "tuple-nan", "f32", "object", "masked-finite", "masked-nan",
                  "series", "series-shifted", "dask", "int", "int16", "uint8", "int32", "int8"]
 TIME_CARRIERS = [c for c in gen.TIME_CARRIERS if c != "dt64ns"]
+REVERSE_SPANS = False  # toggled per logical case by run()
 T0F = float(gen.T0)
 POISON = [1.0, 2.5, -7.0, 100.0, 0.0]  # finite values hidden under the mask: GOOD-, SUSPECT- and FAIL-looking
 
@@ -190,20 +191,25 @@ def build(roles, vary=None, how=None, func=None):
                 return None  # carrier cannot represent sub-second instants
         elif kind == "timedata":
             c = how if mine else "dt64ns"
-            if c in ("epoch-int", "epoch-float", "epoch-list"):
+            if c.startswith("epoch"):
                 return None  # numbers would be numbers, not times, to valid_range_test
             if "utc" in c:
                 return None  # the statement's tz-aware carriers are *time inputs*; here the times are the data
             v = gen.times(val, c)
             kw[name] = v
-            if isinstance(v, list):
+            if isinstance(v, (list, tuple)) and c in ("dt64ns-scalar-list", "dt64s-scalar-tuple"):
+                pass  # datetime64 scalars carry their own type: no dtype argument, the function works it out
+            elif isinstance(v, list):
                 if c == "pydatetime-utc":
                     return None  # np.array(aware datetimes, dtype=datetime64) is not a documented path
                 kw["dtype"] = np.dtype("datetime64[ns]")
         elif kind == "timespan":
             kw[name] = tuple(np.array(val, dtype="int64").astype("datetime64[s]").astype("datetime64[ns]"))
         elif kind == "span":
-            kw[name] = tuple(val) if (mine and how == "tuple") else list(val)
+            v_ = list(val)
+            if REVERSE_SPANS and len(v_) == 2:
+                v_ = v_[::-1]  # the two numbers of a span may come in either order, in a list as in a tuple
+            kw[name] = tuple(v_) if (mine and how == "tuple") else v_
         else:
             kw[name] = val
     return kw
@@ -254,6 +260,8 @@ def run(ctx) -> None:
     ctx.require("c15.members_compared", 2000)
     for _ in range(ctx.pick(45, 600)):
         for mode, func, roles in cases(rng):
+            global REVERSE_SPANS
+            REVERSE_SPANS = rng.random() < 0.3 and func in ("qartod.gross_range_test",)
             base_kw = build(roles, func=func)
             base = client.invoke(func, base_kw)
             ctx.count("c15.groups")
